@@ -239,7 +239,11 @@ def run_tlc(module, cfg, *, workers=None, timeout=900, on_emit=None, on_print=No
         f.write(cfg)
     if workers is None:
         workers = NCPU
-    cmd = ['java', '-XX:+UseParallelGC', '-Xmx' + heap, '-Xss16m']
+    # (TLC leaves an empty tlc-* directory per run in java.io.tmpdir: keep it inside the scratch
+    # directory, which is removed with the run)
+    jtmp = os.path.join(work, 'jtmp')
+    os.makedirs(jtmp, exist_ok=True)
+    cmd = ['java', '-XX:+UseParallelGC', '-Xmx' + heap, '-Xss16m', '-Djava.io.tmpdir=' + jtmp]
     if dfs:
         cmd.append('-Dtlc2.tool.queue.IStateQueue=StateDeque')
     cmd += ['-cp', TLA_CP, 'tlc2.TLC', '-workers', str(workers),
